@@ -13,6 +13,7 @@ import Rare.Proofs.C07NumF64Err
 import Rare.Proofs.C07NumF64Acc
 import Rare.Proofs.C07NumF64Var
 import Rare.Proofs.C07ModeNaN
+import Rare.Model.C07NumErr
 import Rare.Gen.C07
 /-!
 C07 – Aggregators compute the exact fold of their sample history.
@@ -1237,6 +1238,33 @@ theorem num_f64_variance_overflow_counterexample :
     (runFv false l).varianceF = F64.inf false ∧ (runFv false l).stdDev = F64.inf false := by
   decide +kernel
 
+/-- THE TOLERANCE CHECK OF THE CORRESPONDENCE IS THE PROVED ONE.  The driver op `agg numerr` evaluates `numErrCheck`
+(`Model/C07NumErr.lean`: is `Mean()` within `meanErrBound`, `M2` within `m2ErrBound`, `Variance()` within
+`varianceErrBound` of the exact rational statistics?), and the harness evaluates the same inequalities for the REAL
+`MatchNumerical` with `math/big`.  For every list of the class (`inErrClass`: `e ≤ 480`, non-empty, finite samples of
+magnitude ≤ 2^e; at most 2^53 of them) all three flags are `true` – so a real run that prints a `0` contradicts
+`num_f64_mean_error` / `num_f64_variance_error` (or the bit-for-bit tie `agg numfv`), e.g. a variance computed by the
+cancelling sum-of-squares formula. -/
+theorem num_f64_error_check_true (e : Nat) (l : List F64) (hc : inErrClass e l = true)
+    (hn : l.length ≤ 9007199254740992) : numErrCheck e l = (true, true, true) := by
+  unfold inErrClass at hc
+  simp only [Bool.and_eq_true, decide_eq_true_eq, Bool.not_eq_true', List.all_eq_true] at hc
+  obtain ⟨⟨he, hne⟩, hall⟩ := hc
+  have hne' : l ≠ [] := by intro h; rw [h] at hne; simp at hne
+  have hl : ∀ x ∈ l, x.isFinite = true ∧ -((2 ^ e : Nat) : Rat) ≤ x.toRat ∧ x.toRat ≤ ((2 ^ e : Nat) : Rat) :=
+    fun x hx => ⟨(hall x hx).1.1, (hall x hx).1.2, (hall x hx).2⟩
+  have hM : ((2 ^ e : Nat) : Rat) ≤ ((2 ^ 1021 : Nat) : Rat) :=
+    Rat.natCast_le_natCast.mpr (Nat.pow_le_pow_right (by decide) (by omega))
+  obtain ⟨_, mf, _, _, m1, m2'⟩ := num_f64_mean_error false _ hM l hne' hn hl
+  obtain ⟨⟨vf, _, _, v1, v2⟩, hv⟩ := num_f64_variance_error false e he l hne' hn hl
+  unfold numErrCheck within meanErrBound m2ErrBound varianceErrBound
+  simp only [Prod.mk.injEq, Bool.and_eq_true, Bool.or_eq_true, decide_eq_true_eq]
+  refine ⟨⟨mf, m1, m2'⟩, ⟨vf, v1, v2⟩, ?_⟩
+  by_cases h2 : l.length < 2
+  · exact Or.inl h2
+  · obtain ⟨a, b, c⟩ := hv (by omega)
+    exact Or.inr ⟨a, b, c⟩
+
 /-! ### non-vacuity of the float theorems -/
 
 /-- "1.5", "x", "-2", "1e999" (range error), "0x1p-1", "nan". -/
@@ -1280,6 +1308,7 @@ example : IsSortedF false [F64.nan, F64.zero true, F64.zero false, F64.ofInt 1] 
 /-- all samples `+Inf`: `Min()` is `+Inf` (was `MaxFloat64` before bda1842); the overflow witness is real -/
 example : (runFv false [F64.inf false, F64.inf false]).min = F64.inf false := by decide +kernel
 example : (runFv false [F64.neg maxF64, maxF64]).mean = F64.inf false := by decide +kernel
+example : inErrClass 0 [F64.ofRat (1/10), F64.ofRat (2/10), F64.ofRat (3/10)] = true := by decide +kernel
 /-- hypotheses of `num_f64_variance_error` (e = 0) on 0.1, 0.2, 0.3: `M2` is rounded (it is not the exact value). -/
 example : (runFv false [F64.ofRat (1/10), F64.ofRat (2/10), F64.ofRat (3/10)]).variance.toRat ≠
     m2 ([F64.ofRat (1/10), F64.ofRat (2/10), F64.ofRat (3/10)].map F64.toRat) := by decide +kernel
